@@ -218,6 +218,9 @@ func (ex *Exec) eval(e Expr, st *State, env *Env) TV {
 			}
 			return TV{Sc{ex.fneg(t)}, tFloat}
 		}
+	case EAddr:
+		p, t := ex.placeOf(x.X, st, env)
+		return TV{p, types.NewPointer(t)}
 	case EStar:
 		v := ex.eval(x.X, st, env)
 		p, ok := v.V.(PtrV)
